@@ -20,8 +20,12 @@ ASSUMPTIONS = [
 
 def design_checks(tier):
     if tier == "quick":
-        return [dict(module="FiltersMC", cfg="FiltersMC_quick.cfg", workers=8, timeout=300)]
-    return [dict(module="FiltersMC", cfg="FiltersMC_full.cfg", workers=16, timeout=3000, coverage=True)]
+        return [dict(module="FiltersMC", cfg="FiltersMC_quick.cfg", workers=8, timeout=300),
+                dict(module="PropagateMC", cfg="PropagateMC_quick.cfg", workers=8, timeout=600),
+                dict(module="PropagateMC", cfg="PropagateMC_strict.cfg", workers=2, timeout=120, expect_violation="NeverModelled")]
+    return [dict(module="FiltersMC", cfg="FiltersMC_full.cfg", workers=16, timeout=3000, coverage=True),
+            dict(module="PropagateMC", cfg="PropagateMC.cfg", workers=16, timeout=1800),
+            dict(module="PropagateMC", cfg="PropagateMC_strict.cfg", workers=2, timeout=120, expect_violation="NeverModelled")]
 
 
 def _filter_spec(rng, names, glyphs):
